@@ -3,39 +3,21 @@ package rules
 import (
 	"fmt"
 
-	"golang.org/x/tools/go/ssa"
-
 	"rcheck/engine"
 )
 
 func init() { register("probe", probe) }
 
 func probe(r *engine.Report, p *engine.Program) {
-	wc := wireCone(r, p)
-	fmt.Println("wire cone", len(wc.Fns))
-	for _, f := range wc.Sorted() {
-		fmt.Println("  W", engine.FuncName(f))
-	}
-	cc := controlCone(r, p)
-	fmt.Println("control cone", len(cc.Fns))
-	for _, f := range cc.Sorted() {
-		if !wc.Fns[f] {
-			fmt.Println("  C", engine.FuncName(f))
+	fn := p.Func("(*workceptor.commandUnit).UnredactedStatus")
+	for _, ci := range engine.CallsIn(fn) {
+		fmt.Println(ci.String())
+		if op, ok := p.LockOpOf(ci); ok {
+			fmt.Println("   lockop", op.Path.String())
 		}
-	}
-	for _, c := range []*engine.Cone{wc, cc} {
-		for _, f := range c.Sorted() {
-			for _, b := range f.Blocks {
-				for _, in := range b.Instrs {
-					switch x := in.(type) {
-					case *ssa.TypeAssert:
-						if !x.CommaOk {
-							fmt.Println("TA", engine.FuncName(f), p.Pos(x.Pos()), x.String())
-						}
-					case *ssa.Panic:
-						fmt.Println("PANIC", engine.FuncName(f), p.Pos(x.Pos()))
-					}
-				}
+		if ci.Common().IsInvoke() {
+			for _, im := range p.ImplsOfMethod(ci.Common().Method) {
+				fmt.Println("   impl", engine.FuncName(im), len(im.Blocks))
 			}
 		}
 	}
